@@ -11,7 +11,7 @@ PROPERTY = "C11"
 BUDGET = {"quick": 700, "thorough": 2500}
 RULE = ("A grid shape (line, 2-D, 3-D, degenerate zero-extent axes in any position, non-cubic) and a history (1-14 ops) of "
         "add(name, source)/remove(name)/remove(unknown) over 4 names. Sources: callable f(pos, cells), list, numpy int/float "
-        "array, ConstantGenerator, LookupGenerator over nested lists or numpy arrays; values int / dyadic float / str, "
+        "array, ConstantGenerator, LookupGenerator over nested lists or numpy arrays; values int / dyadic float / str / tuple / list (also a sequence-valued constant with one entry per cell), "
         "position dependent and injective (mult*(10000z+100y+x)+off). After every op EVERY live component is re-read for "
         "EVERY cell through world.cells[name][id] and world.get_cell(x,y,z)[name] and compared with the value the source "
         "assigns to that cell (coordinates computed independently, x fastest); the caller's list/array is overwritten "
@@ -54,10 +54,16 @@ def value(src, p):
         return n / 8.0
     if vt == "str":
         return f"v{n}"
+    if vt == "tuple":
+        return (n, n + 1, n + 2)
+    if vt == "list2":
+        return [n, -n]
     return n
 
 
 def same(got, exp):
+    if isinstance(exp, (tuple, list)):
+        return type(got) is type(exp) and len(got) == len(exp) and all(same(g, e) for g, e in zip(got, exp))
     if isinstance(exp, str):
         return isinstance(got, str) and got == exp
     if isinstance(got, (str, bytes)) or got is None:
@@ -114,8 +120,13 @@ def run_case(case):
                 continue
             src = op["src"]
             kind = src["kind"]
+            if src.get("vtype") in ("tuple", "list2", "cells") and kind not in ("const", "callable"):
+                src = dict(src, vtype="int")        # sequence-valued cells only through generators (callable / constant)
             exp = [value(src, p) for p in cells]
             keep = None
+            if kind == "callable" and src.get("vtype") == "cells":
+                src = dict(src, vtype="tuple")
+                exp = [value(src, p) for p in cells]
             if kind == "callable":
                 seen = []
 
@@ -135,6 +146,8 @@ def run_case(case):
                 keep = source
             elif kind == "const":
                 c = value(src, (0, 0, 0))
+                if src.get("vtype") == "cells":          # a sequence-valued constant that happens to have one entry per cell
+                    c = tuple(range(n))
                 exp = [c] * n
                 source = ConstantGenerator(c)
             elif kind == "lookup":
@@ -211,7 +224,7 @@ def strategy(tier):
     src = st.fixed_dictionaries({
         "kind": st.sampled_from(["callable", "callable", "list", "array", "const", "lookup", "lookup"]),
         "mult": st.sampled_from([1, 1, 3, -2, 7]), "off": st.integers(-50, 50),
-        "vtype": st.sampled_from(["int", "int", "float", "str"]),
+        "vtype": st.sampled_from(["int", "int", "float", "str", "tuple", "list2", "cells"]),
         "lowdim": st.booleans(), "numpy": st.booleans()})
     name = st.integers(0, 3)
     op = wone_of(st.fixed_dictionaries({"op": st.just("add"), "name": name, "src": src}),
